@@ -2,6 +2,8 @@
    stream; recordings tile.  Only property theorems, non-vacuity examples, Print Assumptions. *)
 From Coq Require Import List ZArith Bool.
 From TR Require Import model.Ring model.Processor model.ProcAbs model.ProcSpec proofs.ProcS0102.
+(* constants and wiring read from the Go sources on every run *)
+From TR Require Import proofs.FactsRing proofs.FactsProc.
 Import ListNotations.
 Open Scope Z_scope.
 
